@@ -598,6 +598,7 @@ class SimSocket:
         self.index = len(net.sockets)
         self.closed_at = None
         self.write_fault = None
+        self.peer_gone = False
         self.stall_after, self.stall_for, self.wstall_until = None, 0.0, None
         # descriptor numbers are handed out like the kernel does: the lowest number not in use (so they are reused)
         used = {x.fd for x in net.sockets if not x.closed}
@@ -613,8 +614,12 @@ class SimSocket:
         if data and not self.rst:
             self.inbox.append(bytes(data))
 
-    def peer_eof(self):
+    def peer_eof(self, full=False):
+        """The peer's FIN. With full=True the peer has closed its socket altogether (not just its sending side):
+        whatever the client writes from now on is answered with a reset, as a real stack does."""
         self.eof = True
+        if full:
+            self.peer_gone = True
 
     def peer_rst(self):
         self.rst = True
@@ -693,6 +698,12 @@ class SimSocket:
                 self.log.append((s.now, "T"))
                 raise _real_socket.timeout("timed out")
 
+    def recv_into(self, buffer, nbytes=0, flags=0):
+        mv = memoryview(buffer).cast("B")
+        data = self.recv(nbytes or len(mv))
+        mv[: len(data)] = data
+        return len(data)
+
     def send(self, data):
         s = self._s
         s.yield_point("send")
@@ -700,6 +711,15 @@ class SimSocket:
             raise OSError(errno.EBADF, "Bad file descriptor")
         if self.rst:
             raise ConnectionResetError(errno.ECONNRESET, "Connection reset by peer")
+        if self.peer_gone and data and not self.shut:
+            # the kernel takes the bytes; the closed peer answers them with RST. The connection is then in state CLOSE:
+            # input already queued can still be read (Linux), after it recv reports ECONNRESET; shutdown reports ENOTCONN
+            self.sent += bytes(data)
+            self.log.append((s.now, "W", bytes(data)))
+            if self.peer is not None:
+                self.peer.bytes_after_tcp_close += len(data)
+            self.rst = True
+            return len(data)
         if self.shut:
             raise BrokenPipeError(errno.EPIPE, "Broken pipe")
         data = bytes(data)
@@ -740,6 +760,9 @@ class SimSocket:
         if self.closed:
             raise OSError(errno.EBADF, "Bad file descriptor")
         self.log.append((self._s.now, "S"))
+        if self.rst:
+            # a connection that was reset is in state CLOSE: Linux refuses shutdown() on it
+            raise OSError(errno.ENOTCONN, "Transport endpoint is not connected")
         self.shut = True
         if self.peer is not None:
             self.peer.on_client_shutdown(self)
